@@ -871,7 +871,7 @@ class Gen:
         if rng.random() < 0.08 and params:
             # same name in a different location
             src = rng.choice(params)
-            if src["in"] in ("query", "cookie") and src["schema"].get("type") == "string":
+            if src["in"] in ("query", "cookie") and src["schema"].get("type") == "string" and src["name"].isascii() and all(c.isalnum() or c in "-_." for c in src["name"]):
                 other = "cookie" if src["in"] == "query" else "query"
                 if not any(p["name"] == src["name"] and p["in"] == other for p in params):
                     params.append({"name": src["name"], "in": other, "schema": {"type": "string"}})
